@@ -4,8 +4,8 @@
 PATCH="$(realpath "$1")"; shift
 TIER=quick
 git -C /repo diff --quiet || { echo "/repo working tree not clean"; exit 3; }
-git -C /repo apply "$PATCH" || { echo "patch does not apply"; exit 3; }
-trap 'git -C /repo checkout -- . ; git -C /repo status --short | head -3' EXIT INT TERM
+trap 'git -C /repo reset -q --hard HEAD ; git -C /repo status --short | head -3' EXIT INT TERM
+git -C /repo apply "$PATCH" 2>/dev/null || git -C /repo apply --3way "$PATCH" || { echo "patch does not apply"; exit 3; }
 for a in "$@"; do
   case "$a" in quick|thorough) TIER="$a";; esac
 done
